@@ -86,6 +86,9 @@ class Module:
         """
         Keeps track of the submodules and parameters added to this module 
         """
+        # a re-assigned attribute drops its previous registration
+        if '_submodules' in self.__dict__: self._submodules.pop(__name, None)
+        if '_parameters' in self.__dict__: self._parameters.pop(__name, None)
         if isinstance(__value, Module):
             self.register_module(__name, __value)
         elif isinstance(__value, Parameter):
